@@ -300,14 +300,15 @@ impl<R: RealNumberInternalTrait> Number<R> {
         match self {
             Number::Integer(num) => Number::Integer(num),
             Number::Real(num) => Number::Real(num.floor()),
-            Number::Rational(a, b) => Number::Integer({
-                let quot = a / b;
-                if quot >= 0 || quot * b == a {
-                    quot
+            // greatest integer not above a/b, for either sign of a and b
+            Number::Rational(a, b) => Number::exact_ratio(
+                if b > 0 {
+                    (a as i128).div_euclid(b as i128)
                 } else {
-                    quot - 1
-                }
-            }),
+                    (-(a as i128)).div_euclid(-(b as i128))
+                },
+                1,
+            ),
         }
     }
 
@@ -315,14 +316,15 @@ impl<R: RealNumberInternalTrait> Number<R> {
         match self {
             Number::Integer(num) => Number::Integer(num),
             Number::Real(num) => Number::Real(num.ceil()),
-            Number::Rational(a, b) => Number::Integer({
-                let quot = a / b;
-                if quot <= 0 || quot * b == a {
-                    quot
+            // least integer not below a/b: -floor(-a/b)
+            Number::Rational(a, b) => Number::exact_ratio(
+                if b > 0 {
+                    -((-(a as i128)).div_euclid(b as i128))
                 } else {
-                    quot + 1
-                }
-            }),
+                    -((a as i128).div_euclid(-(b as i128)))
+                },
+                1,
+            ),
         }
     }
 
